@@ -76,6 +76,8 @@ FieldRequests(pd) ==
           ELSE { [q |-> qq, c |-> StateVec(pd), pts |-> FieldPts(pd), NL |-> nl] @@ NoPlace : qq \in {"strain", "stress"}, nl \in BOOLEAN }
                \cup { [q |-> "fext", forces |-> Forces1(pd), forcesInc |-> Forces2(pd), inc |-> i] @@ NoPlace : i \in {ROne, R(3,8)} }
                \cup { [q |-> "fext", forces |-> <<>>, forcesInc |-> Forces1(pd), inc |-> R(1,2)] @@ NoPlace }
+               (* boundary value of the load factor: only the constant forces remain *)
+               \cup { [q |-> "fext", forces |-> Forces2(pd), forcesInc |-> Forces1(pd), inc |-> RZero] @@ NoPlace }
                \cup { [q |-> "fext", forces |-> Forces3(pd), forcesInc |-> Forces4(pd), inc |-> i] @@ NoPlace : i \in {ROne, R(3,8)} })
 
 (* non-linear requests: small orders, flags that leave in-plane and out-of-plane amplitudes active *)
